@@ -82,6 +82,76 @@ def native_scenarios(tier):
     return scs
 
 
+def end_to_end(rep):
+    """the adapter in front of the real file-system backend: a chunk-signed upload with a fault in chunk k (altered data, altered signature,
+    truncation, wrong declared length) or a plain upload with a wrong payload hash is answered with an error, the previous object is served
+    unchanged afterwards and the root holds no temporary file.  Validation of the composition C08 (decoder) + C19 (backend); not solver-decided."""
+    import shutil
+    import authfam as A
+    import C08
+    import sigprops
+    t0 = time.time()
+    root = os.path.join(BUILD, "c19-e2e-%d" % os.getpid())
+    shutil.rmtree(root, ignore_errors=True)
+    cfg = dict(sigprops.CFG, fs_root=root)
+    chunks = [b"a" * 5, b"b" * 7, b"c" * 3]
+
+    def alter(i, what):
+        def f(recs, enc):
+            r = [list(x) for x in recs]
+            if what == "data":
+                r[i][1] = bytes([r[i][1][0] ^ 1]) + r[i][1][1:]
+            elif what == "sig":
+                h = r[i][0]
+                r[i][0] = h[:-3] + (b"0" if h[-3:-2] != b"0" else b"1") + h[-2:]
+            return C08.join(r)
+        return f
+    faults = [("chunk%d-%s" % (i, w), C08.chunked_request(chunks, fault=alter(i, w))) for i in range(3) for w in ("data", "sig")]
+    faults += [("final-chunk-sig", C08.chunked_request(chunks, fault=alter(3, "sig")))]
+    n_total = len(bytes.fromhex(C08.chunked_request(chunks)["body"]))
+    faults += [("truncated@%d" % c, C08.chunked_request(chunks, fault=lambda recs, enc, c=c: C08.join(recs)[:c])) for c in (0, 40, 90, 120, n_total - 40, n_total - 1)]
+    faults += [("declared-short", C08.chunked_request(chunks, declared=14)), ("declared-long", C08.chunked_request(chunks, declared=16))]
+    bad_hash = A.v4_header("PUT", "/bkt/key", body=b"hello", mutate=lambda rq: rq.update(body=b"hellp".hex()))
+    faults += [("plain-body-altered", bad_hash)]
+    problems = []
+    n = 0
+    for prev in (True, False):
+        for tag, rq in faults:
+            shutil.rmtree(root, ignore_errors=True)
+            scs = [{"config": cfg, "request": A.v4_header("PUT", "/bkt")}]
+            if prev:
+                scs.append({"config": cfg, "request": A.v4_header("PUT", "/bkt/key", body=b"OLD-CONTENT")})
+            scs += [{"config": cfg, "request": rq}, {"config": cfg, "request": A.v4_header("GET", "/bkt/key")}]
+            outs = replay.run_scenarios(scs)
+            n += 1
+            up, get = outs[-2], outs[-1]
+            left = [f for f in os.listdir(root) if f.startswith(".tmp.")] if os.path.isdir(root) else []
+            if str(up.get("status", "")).startswith("2"):
+                problems.append("%s (previous object %s): the faulty upload is answered %s" % (tag, "present" if prev else "absent", up.get("status")))
+            elif prev and get.get("body_text") != "OLD-CONTENT":
+                problems.append("%s: after the refused upload GetObject returns %r (status %s) instead of the previous object" % (tag, get.get("body_text"), get.get("status")))
+            elif not prev and str(get.get("status", "")).startswith("2"):
+                problems.append("%s: after the refused upload of a new key GetObject answers %s" % (tag, get.get("status")))
+            elif left:
+                problems.append("%s: temporary file left behind: %s" % (tag, left))
+    # control: the same upload without fault is stored completely
+    shutil.rmtree(root, ignore_errors=True)
+    outs = replay.run_scenarios([{"config": cfg, "request": A.v4_header("PUT", "/bkt")}, {"config": cfg, "request": C08.chunked_request(chunks)},
+                                 {"config": cfg, "request": A.v4_header("GET", "/bkt/key")}])
+    if outs[-1].get("body_text") != (b"".join(chunks)).decode():
+        problems.append("control: the faultless chunk-signed upload is stored as %r" % outs[-1].get("body_text"))
+    shutil.rmtree(root, ignore_errors=True)
+    rep.traces_validated += n + 1
+    name = ("adapter + file-system backend end to end: %d faulty uploads (a fault in every chunk of a chunk-signed upload, truncations, wrong declared "
+            "length, altered plain body; previous object present / absent) are refused, the previous object is served unchanged, no temporary file" % n)
+    if problems:
+        res = rep.violation("end-to-end:" + problems[0].split(" ")[0].split(":")[0].split("@")[0], problems[0] + (" (%d deviations)" % len(problems)),
+                            rep.save_cex("end_to_end", problems), confirmed=True)
+        rep.obligation(name, "replayer(real adapter + backend)", res, time.time() - t0, queries=n)
+    else:
+        rep.obligation(name, "replayer(real adapter + backend; not solver-decided)", "holds", time.time() - t0, queries=n)
+
+
 def classify(sc, o):
     """-> list of native deviation classes of one observation (empty: all-or-nothing held)"""
     out = []
@@ -279,6 +349,10 @@ def run(rep, tier):
                    "new state, no temporary file" % len(outs), "replayer(real backend; not solver-decided)",
                    "holds" if not native else ("known" if all(c in used for c in native) and not rep.violations else "violated"), time.time() - t0,
                    detail={"classes": {c: len(v) for c, v in native.items()}}, queries=len(outs))
+    try:
+        end_to_end(rep)
+    except Inconclusive as e:
+        rep.fail_inconclusive("end-to-end family: %s" % e)
     rep.bound("body of <= %d frames; one abandonment per run; two writers; multipart uploads of <= 2 parts" % n_frames)
     rep.assume("file-system effects are a trace of create / write / flush / rename / remove / copy / mkdir events over path terms; rename is atomic; "
                "tokio::fs calls succeed (no disk faults); the path constructors of fs.rs are terms (decided by C17)")
